@@ -213,6 +213,43 @@ UNITS += [
          contract="\n    // (implicit obligation: the old index files are removed before the new index is written only for instant-delete + early-delete-index)\n"),
 ]
 
+UNITS += [
+    Unit(name="copy_blobs_reports_failed_writes", file=CPY, kind="block", within="fn copy_blobs<BE: DecryptFullBackend>(",
+         anchor="p.set_length(length);", block_end="@fn_end",
+         block_sig="fn copy_blobs_reports_failed_writes(blobs: VCopyBlobList, copier: VBlobCopier, p: ProgressR, w: &mut CopyFlush) -> (r: RusticResult<()>)",
+         block_tail="",
+         functions=["commands::copy::copy_blobs (tail: copy every blob, finalize the copier, report its errors)"],
+         rewrites=[
+             Rw(r"blobs\s*\.into_par_iter\(\)\s*\.try_for_each\(\|blobs\| -> RusticResult<_> \{ copier\.copy\(blobs, &p\) \}\)", "vcopy_all(blobs, &copier, &p, w)" + "\n" * 2, regex=True, why="rayon loop over BlobCopier::copy (unit of C02) -> stub"),
+             Rw("copier.finalize()", "copier.finalize(w)", why="typestate argument: Ok of finalize is the evidence that the last pack is stored"),
+             Rw("p.set_length(length);", "", why="progress bar (UI only); anchor statement of the block"),
+         ],
+         contract="""
+    requires !old(w).flushed@,
+    ensures
+        // copy_blobs reports success only if the copier's finalize did: a failed pack write (they surface there) is never swallowed
+        /*@success_only_if_the_last_pack_was_written*/ r is Ok ==> final(w).flushed@,
+"""),
+]
+
+UNITS += [
+    Unit(name="prune_repack_finalize", file=PRU, kind="block", within="pub(crate) fn prune_repository<S: Open>(",
+         anchor="_ = tree_repacker.finalize()?;", block_end="p.finish();\n    }\n",
+         block_sig="fn prune_repack_finalize(tree_repacker: VRepacker, data_repacker: VRepacker, indexer: &VRepackIndexer, w: &mut RepackFlush) -> (r: RusticResult<()>)",
+         block_tail="        Ok(())",
+         functions=["commands::prune::prune_repository (end of the repack branch: finalize both repackers, then the new index)"],
+         rewrites=[
+             Rw("tree_repacker.finalize()", "tree_repacker.finalize(w)", why="typestate argument: Ok of finalize is the evidence that the repacker's last pack is stored"),
+             Rw("data_repacker.finalize()", "data_repacker.finalize(w)", why="typestate argument (as above)"),
+             Rw("indexer.write().unwrap().finalize()?;", "indexer.vfinalize(w)?;", why="RwLock guard + Indexer::finalize -> effectful stub: PRECONDITION 'both repackers finalized successfully'"),
+         ],
+         contract="""
+    requires tree_repacker.tag@ == 1, data_repacker.tag@ == 2, !old(w).done@.contains(1), !old(w).done@.contains(2),
+    ensures
+        /*@new_index_only_after_both_repackers_succeeded*/ r is Ok ==> final(w).index_written@ && final(w).done@.contains(1) && final(w).done@.contains(2),
+"""),
+]
+
 META = {"not_covered": [
     "the statement's quantifier (every prefix of every command's storage operations, any single failing operation): only the ordering of the straight-line parts listed under functions is decided",
     "thread pipelines: Packer::new (chunk -> pack), Actor / FileWriterHandle composition (process then index), parallel repack in prune, TreeStreamerOnce",
